@@ -82,7 +82,7 @@ Definition getIndex (t : tt) (key : Z) : Z := TT_getIndex (topBits t) (usedShift
 Definition clear (t : tt) : res tt :=
   match setUsedSize t (tableSize t) with
   | Ok t1 => Ok (mkTT [] (tableSize t1) (usedSize t1) (topBits t1) (usedShift t1) (usedMask t1)
-                      (generation t1) (contemptHash t1) false)
+                      0 (contemptHash t1) false)                    (* generation = 0 *)
   | e => e
   end.
 
